@@ -327,6 +327,67 @@ def unit_twist_cases(ctx, algebra, tier, seed):
                 check_exp_output(ctx, cid, en, P, T, U * th, algebra)
 
 
+def sequence_cases(ctx):
+    """sequence forms of the class wrappers: Exp of several algebra elements, log of multi-valued poses"""
+    import spatialmath as sm
+    tier, seed = ctx.tier, ctx.seed
+    for algebra in ('so3', 'se3', 'se2'):
+        els = [(n, S, th) for n, S, th in elements(algebra, tier, seed)]
+        els = [e for e in els if alph.thin('seq' + '/'.join('%s=%s' % kv for kv in e[0]), tier, 8, 2)][:60 if tier == 'quick' else 400]
+        C = {'so3': sm.SO3, 'se3': sm.SE3, 'se2': sm.SE2}[algebra]
+        cn = C.__name__
+        for N in (2, 3, 5):
+            for start in range(0, max(1, len(els) - N), N):
+                grp = els[start:start + N]
+                if len(grp) < N:
+                    continue
+                Ss = [np.asarray(S, dtype=float) for _, S, _ in grp]
+                refs = [ref_exp(S, algebra) for S in Ss]
+                base = 'C03/%s/seq/N=%d/start=%d' % (algebra, N, start)
+                forms = []
+                if algebra == 'so3':
+                    forms.append(('Nx3/so3=False', lambda: sm.SO3.Exp(np.array(Ss), so3=False)))
+                elif algebra == 'se3':
+                    forms.append(('list-of-6', lambda: sm.SE3.Exp([S.copy() for S in Ss])))
+                    forms.append(('Nx6', lambda: sm.SE3.Exp(np.array(Ss))))
+                else:
+                    forms.append(('list-of-3', lambda: sm.SE2.Exp([S.copy() for S in Ss])))
+                for fname, f in forms:
+                    if algebra == 'so3' and N == 3:
+                        continue        # a 3x3 array is ambiguous, the option decides; covered by N = 2, 5
+                    cid = '%s/%s.Exp/%s' % (base, cn, fname)
+                    if not ctx.want(cid):
+                        continue
+                    ctx.case(cid, key=cid)
+                    P = dict(algebra=algebra, form=fname, N=N, mode='sequence')
+                    ok, X = call(f)
+                    if not ok:
+                        ctx.fail(cid, cn + '.Exp', 'raises:' + type(X).__name__, P, '%s.Exp(%s) raised %r' % (cn, fname, X))
+                        continue
+                    if type(X) is not C or len(X.data) != N:
+                        ctx.fail(cid, cn + '.Exp', 'mismatch', dict(P, what='count'), 'expected %d values, got %s' % (N, len(getattr(X, 'data', []))))
+                        continue
+                    for j in range(N):
+                        check_exp_output(ctx, cid, cn + '.Exp', dict(P, j=j), X.data[j], Ss[j], algebra, refs[j])
+                # log of the multi-valued pose built from the reference group elements
+                for tw in (True, False):
+                    cid = '%s/%s.log/twist=%d' % (base, cn, tw)
+                    if not ctx.want(cid):
+                        continue
+                    ctx.case(cid, key=cid)
+                    P = dict(algebra=algebra, N=N, mode='sequence', twist=int(tw))
+                    X = C([r.copy() for r in refs], check=False)
+                    ok, L = call(X.log, twist=tw)
+                    if not ok:
+                        ctx.fail(cid, cn + '.log', 'raises:' + type(L).__name__, P, '%r' % (L,))
+                        continue
+                    if not isinstance(L, (list, np.ndarray)) or len(L) != N:
+                        ctx.fail(cid, cn + '.log', 'mismatch', dict(P, what='count'), 'log of %d values gave %s' % (N, type(L).__name__))
+                        continue
+                    for j in range(N):
+                        check_log_output(ctx, cid, cn + '.log', dict(P, j=j), L[j], tw, algebra, refs[j], Ss[j], grp[j][2])
+
+
 # --------------------------------------------------------------------------- enumeration
 
 def elements(algebra, tier, seed):
@@ -362,6 +423,7 @@ def shards(tier, seed):
         out.append(('el', 'se2', k, 2 if tier == 'quick' else 4))
     for a in ('so2', 'se2', 'so3', 'se3'):
         out.append(('unit', a))
+    out.append(('seq',))
     return out
 
 
@@ -371,5 +433,7 @@ def run_shard(ctx, shard):
         for i, (names, S, th) in enumerate(elements(algebra, ctx.tier, ctx.seed)):
             if i % K == k:
                 one_element(ctx, algebra, np.asarray(S, dtype=float), dict(names), th)
+    elif shard[0] == 'seq':
+        sequence_cases(ctx)
     else:
         unit_twist_cases(ctx, shard[1], ctx.tier, ctx.seed)
